@@ -104,6 +104,12 @@ def make_check_case(analyse, runner=None):
         if holder is not None:
             holder["res"] = res
         fails, nontrivial, extra = analyse(case, res)
+        if res.outcome == "build_error" and not res.is_a("ScenarioError"):
+            # the scenario script itself crashed with something else than mosaik's ScenarioError: not judged by the
+            # scheduler properties (C11 judges connect()), but it must stay visible - it may be a bug of the harness
+            extra = list(extra) + [f"build_crash.{res.exc_type}"]
+            acc.extra["build_crashes"] = acc.extra.get("build_crashes", 0) + 1
+            acc.extra.setdefault("build_crash_example", f"{res.exc_type}: {(res.exc_msg or '')[:200]}")
         acc.record(case, nontrivial, scenario_classes(case["scenario"]) + run_classes(res) + list(extra),
                    sample=abbreviate(case))
         for f in fails:
